@@ -151,14 +151,16 @@ Definition test_like (p c : cval) : option bool :=
   match p, c with CStr ps, CStr cs => Some (glob_cs ps cs) | _, _ => None end.
 Definition test_eq_fold (p c : cval) : option bool :=
   match p, c with CStr ps, CStr cs => Some (str_eqb (fold cs) (fold ps)) | _, _ => None end.
-(* kwargs[key].subnet_of(policy): AttributeError unless the context value is a network, TypeError across versions.
+(* _ip_within(kwargs[key], policy): AttributeError unless the context value is a network; a network of the OTHER version lies in
+   no network of this one (since fix F30, /repo a-commit "IpAddress / NotIpAddress treat a value of the other IP version as outside
+   the network"; before it subnet_of raised TypeError across versions and the answer was None).
    A policy value that is NOT a network (pydantic kept a string) makes BOTH IpAddress and NotIpAddress constantly
    False, without even reading the context -- this follows the code, such a value is outside the operator's type. *)
 Definition test_ip (neg : bool) (p c : cval) : option bool :=
   match p with
   | CNet pn =>
       match c with
-      | CNet cn => if ipver_eqb (n_ver cn) (n_ver pn) then Some (xorb neg (subnet_of cn pn)) else None
+      | CNet cn => if ipver_eqb (n_ver cn) (n_ver pn) then Some (xorb neg (subnet_of cn pn)) else Some neg
       | _ => None
       end
   | _ => Some false
